@@ -538,6 +538,26 @@ func c10Exec(task int, ops []*c10Op, tr *c10TaskRes) {
 				x = ops[op.reuse].dest
 				op.users = ops[op.reuse].users
 				tr.faults["destination-decoded-into-again"]++
+				// Passing the destination again hands the mutable storage reachable
+				// from it ([]byte, RawMessage) back to the library, which may reuse it
+				// like encoding/json does; strings, Numbers and map keys are immutable
+				// Go values and must survive regardless.
+				handedBack := map[int]bool{}
+				for _, u := range *op.users {
+					for k := range ops {
+						if ops[k] == u {
+							handedBack[k] = true
+						}
+					}
+				}
+				kept := tr.leaves[:0]
+				for _, l := range tr.leaves {
+					if handedBack[l.op] && (l.kind == leafBytes || l.kind == leafRaw) {
+						continue
+					}
+					kept = append(kept, l)
+				}
+				tr.leaves = kept
 			}
 			op.dest = x
 			if op.users == nil {
@@ -727,7 +747,10 @@ func runC10(r *core.Run) {
 					s += "<" + clipStr(op.ty.String(), 40) + ">"
 				}
 				if op.buf != nil {
-					s += fmt.Sprintf(" in=%dB flags=%#x", op.buf.Hi-op.buf.Lo, uint32(op.flags))
+					s += fmt.Sprintf(" in=%dB flags=%#x doc=%q", op.buf.Hi-op.buf.Lo, uint32(op.flags), clip(op.buf.Shadow[op.buf.Lo:op.buf.Hi], 80))
+					if op.reuse >= 0 {
+						s += fmt.Sprintf(" into-destination-of-op#%d", op.reuse)
+					}
 				}
 				if op.stream != nil {
 					s += fmt.Sprintf(" stream=%dB x%d flags=%#x tail=%d", len(op.stream), op.ndecode, uint32(op.flags), op.tail)
